@@ -296,6 +296,14 @@ def bridge_run(case, acc):
         conf = mol.conformations['AVR']
         qu, qf = conf.calculate_charge(mol.version.parameters, ph=14.0)
         ok = ok and abs(qu) < 1e-9 and abs(qf) < 1e-9
+        for cname in ('1A', 'AVR'):
+            for ref in ('neutral', 'low-pH'):
+                prof = mol.get_folding_profile(conformation=cname, reference=ref, grid=(0.0, 14.0, 1.0))[0]
+                if any(abs(dg) > 1e-9 for _, dg in prof):
+                    acc.viols.append(Viol(case, 'bridge-run', 'bridged-cys-consequence/folding-energy',
+                                          'SG-SG %.3f A: folding profile of %s (%s) is not zero: %s' % (dist, cname, ref, [round(dg, 4) for _, dg in prof][-4:]),
+                                          inputs=dict(pdb=text)))
+                    break
     if not ok:
         acc.viols.append(Viol(case, 'bridge-run', 'bridged-cys-consequence/%s' % ('bridged' if expect else 'free'),
                               'SG-SG %.3f A: groups %s' % (dist, [(g.label, g.titratable, g.pka_value, g.atom.cysteine_bridge)
@@ -315,6 +323,9 @@ def pipeline_cases(tier):
         for d in ds:
             for opts in ((), ('-k',)):
                 out.append(dict(kind='pipeline', src='pair', a=a, b=b, d=d, opts=list(opts)))
+    # structures that carry all their hydrogens (the program's own, written back), kept with -k: every H-X pair is judged as well
+    for a, b in (('ASP', 'LYS'), ('HIS', 'GLU'), ('TYR', 'ARG'), ('CYS', 'CYS'), ('ASN', 'TRP'), ('N+', 'C-')):
+        out.append(dict(kind='pipeline', src='fed', a=a, b=b, d=3.0 if a != 'CYS' else 2.04, opts=['-k']))
     for ions in (('ZN', 'FE'), ('CA', 'CA'), ('MG', 'NA')):   # (a ligand atom on top of a protein atom makes ligand typing divide by zero: outside C11)
         out.append(dict(kind='pipeline', src='coincident', ions=list(ions), opts=[]))
     return out
@@ -323,8 +334,18 @@ def pipeline_cases(tier):
 def pipeline_run(case, acc):
     """The bonds the complete program works with (after reading, completion of conformations and protonation), restricted to
     heavy atoms, are those of the all-pairs rule over the heavy atoms of each conformation - whatever record type they have."""
+    with_h = False
     if case['src'] == 'file':
         text = gen.library().text(case['key'])
+    elif case['src'] == 'fed':
+        from . import c07
+        s0 = gen.pair(case['a'], case['b'], case['d'])
+        fed = c07.hydrogens_fed_back(s0, pk.run(gen.to_text(s0)))
+        if fed is None:
+            acc.skipped += 1
+            return
+        text = gen.to_text(fed)
+        with_h = True
     elif case['src'] == 'pair':
         text = gen.to_text(gen.pair(case['a'], case['b'], case['d']))
     else:
@@ -344,7 +365,7 @@ def pipeline_run(case, acc):
     bm = propka.bonds.BondMaker()
     acc.n += 1
     for name in mol.conformation_names:
-        heavy = [a for a in mol.conformations[name].atoms if a.element != 'H']
+        heavy = [a for a in mol.conformations[name].atoms if a.element != 'H' or with_h]
         idx = {id(a): i for i, a in enumerate(heavy)}
         got = set()
         for i, a in enumerate(heavy):
@@ -367,6 +388,7 @@ def pipeline_run(case, acc):
                             if d < 2.6 and criterion(a.element, b.element, d):
                                 exp.add((i, j))
         mixed = sum(1 for i, j in exp if heavy[i].type != heavy[j].type)
+        acc.extra['pipeline_hydrogen_bonds_compared'] += sum(1 for i, j in exp if 'H' in (heavy[i].element, heavy[j].element))
         acc.extra['pipeline_bonds_compared'] += len(exp)
         acc.extra['pipeline_atom_hetatm_bonds'] += mixed
         acc.nontrivial.add(jhash([case, name]))
